@@ -59,6 +59,8 @@ LOCAL = {
     # a spin channel without any electron (the beta channel of a one-electron doublet / of triplet H2)
     "H2+": dict(_H2, charge=1, mult=2),
     "H2(T)": dict(_H2, mult=3),
+    # two hydrogen atoms 30 A apart as a restricted singlet: HOMO and LUMO are exactly degenerate (lattice F)
+    "H..H": dict(_H2, coords=np.array([[0.0, 0.0, 0.0], [30.0, 0.0, 0.0]])),
 }
 
 
@@ -353,6 +355,14 @@ def _lattice(tier, seed):
         for s in ("fixed0.3", "adaptive", "ksa") if quick else tuple(SOLVERS):
             for e in (1e-6, 1e-10) if quick else EPS:
                 add("E", "AM1", b, s, None, e, "default", 1000)
+    # F: exactly degenerate frontier levels (no gap): the purification cannot reach the requested trace and the SCF has no
+    #    stable closed-shell fixed point; whatever comes back as converged must still be self-consistent, a failure must be
+    #    flagged (or refused loudly by the purification), alone and as the padded member of a batch
+    for b in (("H..H",), ("H2O", "H..H"), ("H..H", "H2O")):
+        for s in ("fixed0.3", "adaptive", "pulay"):
+            for x in (None, 1e-5) if quick else (None, 1e-5, 1e-7):
+                for e in (1e-6,) if quick else (1e-6, 1e-10):
+                    add("F", "AM1", b, s, x, e, "default", 60)
     # adjacent cases share the batch (neighbour-density cache)
     cases.sort(key=lambda c: (c["init"] == "default", c["method"], c["batch"]))
     return cases
@@ -368,6 +378,8 @@ EXPECTED_REJECTIONS = (
 
 
 def _is_rejection(case, out):
+    if case["lattice"] == "F" and case["sp2"] is not None and out["exc"] == "RuntimeError" and "SP2 did not converge" in out["msg"]:
+        return True  # loud refusal of a purification that cannot split the degenerate set (never a silent result)
     if not _uhf(case["batch"]):
         return False
     return any(out["exc"] == t and frag in out["msg"] for t, frag in EXPECTED_REJECTIONS)
